@@ -195,6 +195,8 @@ class Controller:
         if dt is None:
             # use self.solver.info['dt'] if it is present
             dt = self.diagnostics["solver"].get("dt")
+        # does the stepper adapt its time step (and thus stop exactly at interrupts)?
+        dt_adaptive = self.diagnostics["solver"].get("dt_adaptive", False)
         # add absolute tolerance for time to account for inaccurate float point math
         if dt is None:  # self.solver.info['dt'] might be None
             # use conservative default values if time step is unknown
@@ -203,7 +205,12 @@ class Controller:
         else:
             # adapt tolerances to time step
             stepper_atol = 1e-6 * dt  # control loop termination and min advance
-            tracker_atol = 0.5 * dt  # allow firing within half a step of the interrupt
+            if dt_adaptive:
+                # adaptive steppers reach the time of the next interrupt exactly
+                tracker_atol = stepper_atol
+            else:
+                # allow firing within half a step of the interrupt
+                tracker_atol = 0.5 * dt
 
         # evolve the system from t_start to t_end
         t = t_start
@@ -230,7 +237,10 @@ class Controller:
                 # update the tolerances to reflect changes in time step `dt`
                 if dt := self.diagnostics["solver"].get("dt"):
                     stepper_atol = 1e-6 * dt
-                    tracker_atol = 0.5 * dt
+                    if dt_adaptive:
+                        tracker_atol = stepper_atol
+                    else:
+                        tracker_atol = 0.5 * dt
 
         except StopIteration as err:
             # iteration has been interrupted by a tracker
